@@ -206,6 +206,32 @@ def run(repo):
                     covered = True
                 else:
                     near.append(ntext(st_)[:50] + ' in `for %s in %s`' % (ntext(loop.target), ntext(loop.iter)[:30]))
+    # the vectorised spellings:  ext[base + h::stride] = 0   /   ext[base + h + stride * np.arange(n)] = 0
+    base_t, str_t, h_t, n_t = b['_base'][1], b['_str'][1], b['_h'][1], b['_n'][1]
+    unknown = []
+    for st_ in walk_no_nested(fi.node):
+        if not (isinstance(st_, ast.Assign) and isinstance(st_.targets[0], ast.Subscript) and
+                ntext(st_.targets[0].value) == ext and isinstance(st_.value, ast.Constant) and st_.value.value == 0):
+            continue
+        idx = st_.targets[0].slice
+        if isinstance(idx, ast.Slice):
+            lo_ok = idx.lower is not None and ntext(idx.lower).replace(' ', '') in (
+                ('%s+%s' % (base_t, h_t)).replace(' ', ''), ('%s+%s' % (h_t, base_t)).replace(' ', ''))
+            if lo_ok and idx.upper is None and idx.step is not None and ntext(idx.step) == str_t:
+                covered = True              # every head from the first one to the end of the block
+            elif base_t in ntext(idx):
+                near.append(ntext(st_)[:50])
+        elif base_t in ntext(idx) and 'arange' in ntext(idx):
+            okf = pmatch('%s + %s + %s * np.arange(%s)' % (base_t, h_t, str_t, n_t), idx)[0] == 'match' or \
+                pmatch('%s + %s * np.arange(%s) + %s' % (base_t, str_t, n_t, h_t), idx)[0] == 'match' or \
+                pmatch('%s + np.arange(%s) * %s + %s' % (base_t, n_t, str_t, h_t), idx)[0] == 'match'
+            if okf:
+                covered = True
+            else:
+                unknown.append(ntext(st_)[:60])
+    if not covered and unknown and not near:
+        raise AnalysisError('to_socp: the lower bounds of the added cones are set by `%s`, a form the rule does not '
+                            'interpret' % unknown[0])
     res.inst({'added cones': ntext(comp[0].elt)[:60], 'heads bounded below by 0': covered}, covered)
     if not covered:
         res.fail(Finding(RULE, fi.fq, 'cone heads without lower bound',
